@@ -226,6 +226,51 @@ theorem findComponents_ok_congr {phased : List Nat} {reads reads' : List Read} {
     (hm : MasterOk phased master) : ∃ comps, findComponents phased reads' master het = .ok comps :=
   findComponents_ok phased reads' master het hsorted (fun r hr => hnd r (hs r hr)) (fun r hr => hk r (hs r hr)) hm
 
+/-! ### reads that cover fewer than two phased variants link nothing -/
+
+/-- the read covers at least two different phased positions -/
+def usefulB (phased : List Nat) (r : Read) : Bool :=
+  decide ((r.positions.filter (fun p => phased.contains p)).eraseDups.length ≥ 2)
+
+theorem length_ge_two_of_mem {l : List Nat} {a b : Nat} (ha : a ∈ l) (hb : b ∈ l) (hne : a ≠ b) : l.length ≥ 2 := by
+  match l, ha, hb with
+  | [x], ha, hb =>
+    simp only [List.mem_singleton] at ha hb
+    exact absurd (ha.trans hb.symm) hne
+  | _ :: _ :: _, _, _ => simp
+
+theorem useful_of_link {phased : List Nat} {r : Read} {a b : Nat} (ha : a ∈ r.positions) (hb : b ∈ r.positions)
+    (hpa : a ∈ phased) (hpb : b ∈ phased) (hne : a ≠ b) : usefulB phased r = true := by
+  unfold usefulB
+  simp only [decide_eq_true_eq]
+  apply length_ge_two_of_mem (a := a) (b := b) _ _ hne
+  · exact List.mem_eraseDups.mpr (List.mem_filter.mpr ⟨ha, by simpa using hpa⟩)
+  · exact List.mem_eraseDups.mpr (List.mem_filter.mpr ⟨hb, by simpa using hpb⟩)
+
+theorem Chain.drop_loops {L L' : Nat → Nat → Prop} (h : ∀ a b, L a b → a = b ∨ L' a b) {a b : Nat} (hc : Chain L a b) :
+    Chain L' a b := by
+  induction hc with
+  | refl a => exact .refl a
+  | step hl _ ih =>
+    rcases h _ _ hl with rfl | hl'
+    · exact ih
+    · exact .step hl' ih
+
+/-- dropping every read that covers fewer than two phased positions does not change connectivity -/
+theorem connected_filter_useful (phased : List Nat) (reads : List Read) (master : Option (List Nat)) (het : Option HetMap)
+    (a b : Nat) :
+    Connected phased reads master het a b ↔ Connected phased (reads.filter (usefulB phased)) master het a b := by
+  constructor
+  · apply Chain.drop_loops
+    intro x y hl
+    by_cases hxy : x = y
+    · exact Or.inl hxy
+    · refine Or.inr ?_
+      rcases hl with ⟨r, hr, hx, hy, hpx, hpy, rest⟩ | hm
+      · exact Or.inl ⟨r, List.mem_filter.mpr ⟨hr, useful_of_link hx hy hpx hpy hxy⟩, hx, hy, hpx, hpy, rest⟩
+      · exact Or.inr hm
+  · exact Chain.mono (linked_of_subset fun r hr => (List.mem_filter.mp hr).1)
+
 /-! ### the family stage -/
 
 /-- the arguments `find_components` gets for the family -/
